@@ -397,6 +397,115 @@ def dag_cases(ctx, preds, specs):
 
 
 # ---------------------------------------------------------------------------------------------------
+# overlapping recoveries inside the ROLLBACK window (C18): module RecoveryConc with RollbackWindow <- WindowOn.  Two or three
+# consumers of one producer fail (the first failure destroys the producer's output); a recovery synchronizes while the producer,
+# rolled back by another recovery, has not been scheduled again yet (status ROLLBACK): it must attach, not roll back again
+# ---------------------------------------------------------------------------------------------------
+
+def window_behaviours(ctx, n=2, ph="ee", w=1, simul=False):
+    cfg = ('CONSTANTS Cons <- MCCons Prod <- MCProd Needs <- MCNeeds Phase <- MCPhase Wiper <- MCWiper LockOrd <- MCLockOrd '
+           'RollbackWindow <- WindowOn Shape = "fan" N = %d P1 = "%s" P2 = "%s" P3 = "%s" W = %d Simul = %s\n' % (
+               n, (ph + "e")[0], (ph + "e")[1], (ph + "ee")[2], w, "TRUE" if simul else "FALSE"))
+    inv = "".join("INVARIANT %s\n" % i for i in ("TypeOK", "LockSafe", "SharedWhenAttached", "OneOwner", "AttachToOwner"))
+    r = ctx.tlc("Recovery", "MC_RecoveryConc", "W.cfg", files={"W.cfg": cfg + "INIT Init\nNEXT Next\nVIEW View\n" + inv}, deadlock=True,
+                coverage=True, timeout=1800)
+    ctx.require(r.ok, "RecoveryConc with the ROLLBACK window: as-is invariants fail (%s %s): specification error\n%s" % (r.error, r.violated, r.stdout[-1500:]))
+    ctx.require_coverage(r, ["FailBuild", "Sync", "SchedA", "StartA", "FinishA"])
+    g = ctx.tlc("Recovery", "MC_RecoveryConc", "WG.cfg", files={"WG.cfg": cfg + "INIT GenInit\nNEXT GenNext\n"}, workers=1, timeout=1800)
+    ctx.require(g.ok, "RecoveryConc (ROLLBACK window) generation failed: %s" % g.stdout[-1500:])
+    out, seen = [], set()
+    for b in g.printed_json():
+        if isinstance(b, dict) and "trace" in b:
+            b["trace"] = [tuple(e) for e in b["trace"] if e[0] != "end"]
+            b["ph"] = ph[:n]
+            b["needs"] = {c: sorted(ps) for c, ps in b["needs"].items()}
+            k = json.dumps([b["trace"], b["dec"]], sort_keys=True)
+            if k not in seen:
+                seen.add(k)
+                out.append(b)
+    ctx.require(out, "RecoveryConc (ROLLBACK window) emitted no behaviour")
+    return out
+
+
+def window_syncs(b):
+    """For every consumer the status the producers it needs had when it synchronized (replayed from the trace)."""
+    status, out = {}, {}
+    for e in b["trace"]:
+        if e[0] == "sync":
+            out[e[1]] = {p: status.get(p, "completed") for p in b["needs"][e[1]]}
+            for p in b["needs"][e[1]]:
+                if b["dec"][e[1]][p] == "rollback":
+                    status[p] = "rollback"
+        elif e[0] in ("schedA", "startA", "finishA"):
+            status[e[2]] = {"schedA": "fireable", "startA": "running", "finishA": "completed"}[e[0]]
+    return out
+
+
+def window_script(b):
+    """Gate script that imposes the behaviour: failing consumers are held before their failure, every recovery between BuildGraph and
+    AcquireLocks, every (re-)scheduled job before Scheduler.schedule (ROLLBACK), before its stage-in (FIREABLE) and before its
+    command completes (RUNNING)."""
+    cons = sorted(b["needs"])
+    prods = sorted({p for ps in b["needs"].values() for p in ps})
+    job = {x: "/%s/0" % x for x in cons + prods}
+    P, S, X = (lambda j: "presched:" + j), (lambda j: "sched:" + j), (lambda j: "exec:" + j)
+    script = [g for p in prods for g in (P(job[p]), S(job[p]), X(job[p]))] + [g for c in cons for g in (P(job[c]), S(job[c]))]
+    for e in b["trace"]:
+        if e[0] == "fail":
+            script.append(X(job[e[1]]))
+        elif e[0] == "sync":
+            script.append("built:" + job[e[1]])
+            script += ["park:" + P(job[p]) for p in sorted(b["needs"][e[1]]) if b["dec"][e[1]][p] == "rollback"]
+        elif e[0] == "schedA":
+            script += [P(job[e[2]]), "park:" + S(job[e[2]])]
+        elif e[0] == "startA":
+            script.append(S(job[e[2]]))
+        elif e[0] == "finishA":
+            script.append(X(job[e[2]]))
+    plan = {(job[c], "execute"): ["fail_stop" if c == b["wiper"] else "soft", 1] for c in cons}
+    return script, plan, job, cons, prods
+
+
+def run_window(ctx, b, stall=6.0):
+    """One gated real run along behaviour b.  Returns the observation projected on the model's vocabulary."""
+    import asyncio
+    from vh import aio
+    from vh.sut import recov
+    from .. import tlc as _t
+    script, plan, job, cons, prods = window_script(b)
+    root = os.path.join(ctx.scratch("runs"), "w%d" % ctx.counters.get("real_runs", 0))
+    ctx.count("real_runs")
+    gates = aio.Gates()
+
+    async def driver(st, task):
+        st.drv = asyncio.ensure_future(recov.script_driver(st, task, script, step_timeout=20.0))
+    try:
+        obs, exc = aio.run(recov.run_plan(recov.fanjoin(b["n"]), plan, root, gates=gates, gate_jobs=set(job.values()), driver=driver,
+                                          gate_points=("exec", "sched", "presched"),
+                                          hooks=recov.conc_hooks(park_built={job[c] for c in cons}), stall=stall, max_retries=12), timeout=600)
+    finally:
+        shutil.rmtree(root, ignore_errors=True)
+    if exc is not None:
+        raise _t.MachineryError("gated run crashed in the harness: %r" % exc)
+    if obs["harness_errors"]:
+        raise _t.MachineryError("harness error inside a gated run: %s" % obs["harness_errors"][:3])
+    inv = {v: k for k, v in job.items()}
+    dec, sts = {}, {}
+    for e in obs["events"]:
+        c = inv.get(e.get("job"))
+        if e["ev"] == "sync" and c in cons and c not in dec:
+            dec[c] = {p: {"attach": "attach", "rollback": "rollback", None: "alone"}[e["decisions"].get(job[p])] for p in b["needs"][c]}
+        if e["ev"] == "built" and c in cons and c not in sts:
+            sts[c] = {inv.get(j, j): s for j, s in e["statuses"].items()}
+    return {"outcome": obs["outcome"], "error": obs["error"], "script": script, "script_failed": obs.get("script_failed"),
+            "decisions": dec, "statuses_at_build": sts, "outputs": obs["outputs"],
+            "execs": {p: obs["attempts"].get("%s|execute" % job[p], 0) for p in prods},
+            "versions": {inv.get(j, j): v for j, v in (obs.get("versions") or {}).items()},
+            "events": [{k: v for k, v in e.items() if k != "n"} for e in obs["events"]
+                       if e["ev"] in ("fail", "natfail", "built", "sync", "sync_end", "rec_begin", "rec_end", "open", "driver_stop")][:60]}
+
+
+# ---------------------------------------------------------------------------------------------------
 # pipeline -> loop shapes (C16): bound to the code by the outputs-equal-failure-free oracle only
 # ---------------------------------------------------------------------------------------------------
 
